@@ -17,22 +17,21 @@ structure Tidy (g : Graph) : Prop where
 def NamesNotFuture (g : Graph) : Prop :=
   ∀ k l, l ∈ g.links k → ∀ n, g.nextId ≤ n → l.1 ≠ idStr n
 
-/-- the common shape of a roll-back: open the container of an entity (or of the root), create the
-entry `nm` in it, write on the new node only, unlink the entry again -/
-theorem rollback_core {ga : Graph} {o : Nat} (cname nm : String) (hK : KeysLt ga) (ho : Has ga o)
+/-- open the container `cname` of an entity (or of the root) and create the entry `nm` in it: the
+container exists, had no such entry, the new node is new, and the state is `Plus` the entry -/
+theorem entry_created {ga : Graph} {o : Nat} (cname nm : String) (hK : KeysLt ga) (ho : Has ga o)
     (hkind : o = 0 ∨ kindOf ga o ≠ "")
     (hfree : ∀ c0, ga.child? o cname = some c0 → Has ga c0 ∧ ga.child? c0 nm = none) :
     let gb := (ga.ensureGroup o cname).1
     let c := (ga.ensureGroup o cname).2
     let gc := (gb.ensureGroup c nm).1
     let k := (gb.ensureGroup c nm).2
-    ¬ (Has gb k ∨ k = c) ∧
-      ∀ g2, SameOn (fun x => Has gb x ∨ x = c) gc g2 → Unch ga (g2.delLink c nm) := by
+    Unch ga gb ∧ KeysLt gb ∧ Has gb c ∧ gb.child? c nm = none ∧ gb.child? o cname = some c ∧
+      ¬ (Has gb k ∨ k = c) ∧ Plus (Has gb) gb gc c nm k := by
   intro gb c gc k
   have hU : Unch ga gb := unch_ensureGroup cname ho hkind hK.fresh
   have hKb : KeysLt gb := keysLt_ensureGroup hK o cname
   have hcc : gb.child? o cname = some c := child?_ensureGroup ga cname ho
-  -- the container exists and has no entry `nm`
   have hc : Has gb c ∧ gb.child? c nm = none := by
     cases h0 : ga.child? o cname with
     | some c0 =>
@@ -68,12 +67,25 @@ theorem rollback_core {ga : Graph} {o : Nat} (cname nm : String) (hK : KeysLt ga
     rintro (h | h)
     · exact hKb.fresh h
     · exact hKb.fresh (h ▸ hc.1)
-  refine ⟨hnk, ?_⟩
-  intro g2 h2
   have hP : Plus (Has gb) gb gc c nm k := by
     have := plus_ensureGroup (Has gb) hc.1 hc.2
     rw [← hk] at this; exact this
-  exact hU.then_same ((hP.then h2).delLink hc.2)
+  exact ⟨hU, hKb, hc.1, hc.2, hcc, hnk, hP⟩
+
+/-- the common shape of a roll-back: open the container of an entity (or of the root), create the
+entry `nm` in it, write on the new node only, unlink the entry again -/
+theorem rollback_core {ga : Graph} {o : Nat} (cname nm : String) (hK : KeysLt ga) (ho : Has ga o)
+    (hkind : o = 0 ∨ kindOf ga o ≠ "")
+    (hfree : ∀ c0, ga.child? o cname = some c0 → Has ga c0 ∧ ga.child? c0 nm = none) :
+    let gb := (ga.ensureGroup o cname).1
+    let c := (ga.ensureGroup o cname).2
+    let gc := (gb.ensureGroup c nm).1
+    let k := (gb.ensureGroup c nm).2
+    ¬ (Has gb k ∨ k = c) ∧
+      ∀ g2, SameOn (fun x => Has gb x ∨ x = c) gc g2 → Unch ga (g2.delLink c nm) := by
+  intro gb c gc k
+  obtain ⟨hU, _, _, hc2, _, hnk, hP⟩ := entry_created cname nm hK ho hkind hfree
+  exact ⟨hnk, fun g2 h2 => hU.then_same ((hP.then h2).delLink hc2)⟩
 
 /-! ## `Entity.create_new` -/
 
@@ -130,13 +142,13 @@ theorem entityCreateNewW_ok (g : Graph) (o : Nat) (cn n t kd : String)
   simp [hn, hs, ht, ht']
 
 theorem hasEntry_false {g : Graph} {o : Nat} {cn n : String} (h : hasEntry g o cn n = false)
-    (ht : ∀ k l, l ∈ g.links k → Has g l.2) :
+    (ht : ∀ l, l ∈ g.links o → Has g l.2) :
     ∀ c0, g.child? o cn = some c0 → Has g c0 ∧ g.child? c0 n = none := by
   intro c0 hc
   unfold hasEntry at h
   rw [hc] at h
   simp only at h
-  refine ⟨ht o (cn, c0) (child?_some_mem hc), ?_⟩
+  refine ⟨ht (cn, c0) (child?_some_mem hc), ?_⟩
   rw [hasChild_eq] at h
   cases hh : g.child? c0 n with
   | none => rfl
@@ -144,8 +156,8 @@ theorem hasEntry_false {g : Graph} {o : Nat} {cn n : String} (h : hasEntry g o c
 
 /-- a named entity is created in the container `cn` of `o`, written to (the node itself only), and
 unlinked again: the file is as it was -/
-theorem entity_rollback {g : Graph} (hT : Tidy g) {o : Nat} (cn n t kd : String)
-    (ho : Has g o) (hkind : o = 0 ∨ kindOf g o ≠ "")
+theorem entity_rollback {g : Graph} (hK : KeysLt g) {o : Nat} (hto : ∀ l, l ∈ g.links o → Has g l.2)
+    (cn n t kd : String) (ho : Has g o) (hkind : o = 0 ∨ kindOf g o ≠ "")
     (hn : (n == "") = false) (hs : hasSlash n = false) (ht : (t == "") = false)
     (hdup : hasEntry g o cn n = false) (g1 : Graph) (c k : Nat)
     (hE : entityCreateNewW g o cn n t kd = (g1, .ok (c, k))) :
@@ -154,8 +166,8 @@ theorem entity_rollback {g : Graph} (hT : Tidy g) {o : Nat} (cn n t kd : String)
   simp only [Prod.mk.injEq, Except.ok.injEq] at hE
   obtain ⟨hg1, hc, hk⟩ := hE
   subst hc hk hg1
-  have hfree := hasEntry_false hdup hT.targets
-  have core := rollback_core (ga := (g.freshId).1) (o := o) cn n (keysLt_freshId hT.keysLt) ho hkind hfree
+  have hfree := hasEntry_false hdup hto
+  have core := rollback_core (ga := (g.freshId).1) (o := o) cn n (keysLt_freshId hK) ho hkind hfree
   simp only at core
   obtain ⟨hnk, hall⟩ := core
   intro g2 h2
@@ -331,7 +343,8 @@ theorem createInW_unch {g : Graph} (hT : Tidy g) (p : Path) (w n t : String) (ex
           | true => simp only [hd, ↓reduceIte]; exact hU0
           | false =>
             simp only [hd, Bool.false_eq_true, ↓reduceIte] at h ⊢
-            have roll := fun g1 c k hE => entity_rollback hT0 cname n t kind ho0 (.inr hkind0) hn hsl ht hd g1 c k hE
+            have roll := fun g1 c k hE => entity_rollback hT0.keysLt (hT0.targets o.key) cname n t kind ho0
+              (.inr hkind0) hn hsl ht hd g1 c k hE
             by_cases hm : (kind == "multi_tag") = true
             · simp only [hm, ↓reduceIte] at h ⊢
               cases ex with
